@@ -301,7 +301,18 @@ pub fn run_property(prop: Property, make_gens: impl FnOnce(&Ctx) -> Vec<Gen<'sta
     let mut per_gen: Vec<Value> = vec![];
     let stride: u64 = std::env::var("VERIF_STRIDE").ok().and_then(|s| s.parse().ok()).unwrap_or(1);
     let instrumentation = std::env::var("VERIF_SANITIZER").unwrap_or_else(|_| "none (debug assertions + overflow checks)".into());
-    let mut all_viol: Vec<(String, usize, Violation)> = vec![];
+    // violations are classified as the results come in (memory: a thorough run can produce hundreds of
+    // thousands of known-finding hits, each with a witness)
+    let mut known_hits: BTreeMap<String, u64> = BTreeMap::new();
+    let mut new_viol: Vec<(String, usize, Violation)> = vec![];
+    let mut seen_sig: HashSet<String> = HashSet::new();
+    let mut new_total = 0u64;
+    let mut by_sig: BTreeMap<String, u64> = BTreeMap::new();
+    // full dump for triage (scratch, not evidence)
+    let mut triage = {
+        let p = verif_root().join("harness").join("target").join(format!("violations-{}.jsonl", prop.id));
+        std::fs::File::create(&p).ok().map(std::io::BufWriter::new)
+    };
     let mut inconclusive: Vec<String> = vec![];
     let mut harness_panics: Vec<String> = vec![];
 
@@ -332,16 +343,18 @@ pub fn run_property(prop: Property, make_gens: impl FnOnce(&Ctx) -> Vec<Gen<'sta
             }
             v
         };
-        let results = util::par_cases(sel.len(), Some(deadline), |k| {
-            util::guarded(|| (g.run)(&ctx, sel[k]))
-        });
         let mut g_eval = 0u64;
         let mut g_nontrivial = 0u64;
         let mut g_shapes: HashSet<u64> = HashSet::new();
         let mut g_viol = 0u64;
         let mut g_samples = 0;
+        const CHUNK: usize = 16_384;
+        for (ci, chunk) in sel.chunks(CHUNK).enumerate() {
+        let results = util::par_cases(chunk.len(), Some(deadline), |k| {
+            util::guarded(|| (g.run)(&ctx, chunk[k]))
+        });
         for (k, r) in results.into_iter().enumerate() {
-            let i = sel[k];
+            let i = sel[ci * CHUNK + k];
             match r {
                 None => not_run += 1,
                 Some(Err(p)) => {
@@ -375,10 +388,24 @@ pub fn run_property(prop: Property, make_gens: impl FnOnce(&Ctx) -> Vec<Gen<'sta
                     }
                     for v in cr.violations {
                         g_viol += 1;
-                        all_viol.push((g.name.to_string(), i, v));
+                        if let Some(f) = triage.as_mut() {
+                            use std::io::Write;
+                            let _ = writeln!(f, "{}", json!({"gen": g.name, "case": i, "sig": v.sig, "detail": v.detail.chars().take(300).collect::<String>()}));
+                        }
+                        if let Some(f) = findings.iter().find(|f| finding_matches(f, &v)) {
+                            *known_hits.entry(f.id.clone()).or_insert(0) += 1;
+                            continue;
+                        }
+                        new_total += 1;
+                        let key = serde_json::to_string(&v.sig).unwrap_or_default();
+                        *by_sig.entry(key.clone()).or_insert(0) += 1;
+                        if seen_sig.insert(key) && new_viol.len() < 25 {
+                            new_viol.push((g.name.to_string(), i, v));
+                        }
                     }
                 }
             }
+        }
         }
         evaluations += g_eval;
         per_gen.push(json!({"generator": g.name, "cases_planned": sel.len(), "cases_in_full_plan": g.n, "cases_run": g_eval,
@@ -394,35 +421,7 @@ pub fn run_property(prop: Property, make_gens: impl FnOnce(&Ctx) -> Vec<Gen<'sta
             libc::close(saved_stdout);
         }
     }
-    // ---- classify violations
-    let mut known_hits: BTreeMap<String, u64> = BTreeMap::new();
-    let mut new_viol: Vec<(String, usize, Violation)> = vec![];
-    let mut seen_sig: HashSet<String> = HashSet::new();
-    let mut new_total = 0u64;
-    let mut by_sig: BTreeMap<String, u64> = BTreeMap::new();
-    // full dump for triage (scratch, not evidence)
-    {
-        use std::io::Write;
-        let p = verif_root().join("harness").join("target").join(format!("violations-{}.jsonl", prop.id));
-        if let Ok(mut f) = std::fs::File::create(&p) {
-            for (g, i, v) in &all_viol {
-                let _ = writeln!(f, "{}", json!({"gen": g, "case": i, "sig": v.sig, "detail": v.detail.chars().take(300).collect::<String>()}));
-            }
-        }
-    }
-    for (g, i, v) in all_viol {
-        if let Some(f) = findings.iter().find(|f| finding_matches(f, &v)) {
-            *known_hits.entry(f.id.clone()).or_insert(0) += 1;
-            continue;
-        }
-        new_total += 1;
-        let key = serde_json::to_string(&v.sig).unwrap_or_default();
-        *by_sig.entry(key.clone()).or_insert(0) += 1;
-        if seen_sig.insert(key) && new_viol.len() < 25 {
-            new_viol.push((g, i, v));
-        }
-    }
-
+    drop(triage);
     if by_sig.len() > 1 {
         eprintln!("  unlisted violations by signature ({} distinct):", by_sig.len());
         for (k, n) in by_sig.iter().take(60) {
